@@ -501,6 +501,21 @@ func c03Enum(ctx *ev.Ctx, fn func(*Config, C03Case)) string {
 	}
 	// (i) tiny inputs and headers
 	c0 := cfgs[0]
+	// (vii) 1..7 stray octets behind the last complete AVP (covered by the Message Length), behind
+	// bodies below, around and above the 1 KiB pooled read buffer
+	for _, size := range []int{8, 400, 900, 948, 960, 1000, 1004, 1008, 1012, 1016, 1100, 3000, 70000} {
+		for stray := 1; stray <= 7; stray++ {
+			for _, fill := range []byte{0, 0xff} {
+				m := refcodec.EncodeMessage(refcodec.Header{Version: 1, Flags: 0x80, Code: 257, HbH: 1, E2E: 1},
+					[]refcodec.Node{{Code: 264, Flags: 0x40, Payload: []byte("h.example")}, {Code: 269, Payload: make([]byte, size)}})
+				for i := 0; i < stray; i++ {
+					m = append(m, fill)
+				}
+				m[1], m[2], m[3] = byte(len(m)>>16), byte(len(m)>>8), byte(len(m))
+				emit(c0, "message", fmt.Sprintf("%d stray octets behind the last AVP of a %d-byte message", stray, len(m)), m)
+			}
+		}
+	}
 	// (0) streams of <=3 pieces read with diam.MessageBufferLength changed between the reads
 	{
 		mk := func(body int) []byte {
@@ -701,7 +716,7 @@ func c03Enum(ctx *ev.Ctx, fn func(*Config, C03Case)) string {
 			emit(c, "message", fmt.Sprintf("grouped AVP nested in itself %d deep", depth), nestedMessage(c, depth))
 		}
 	}
-	return "(0) every stream of <=3 pieces over {messages with 8 / 600 / 2036 / 5000-byte bodies, a bare header claiming 2056 bytes, headers claiming 620 / 3000 bytes followed by 10 / 1500} read message by message with the exported diam.MessageBufferLength set to one of {1024, 4096, 512} before each read; (i) every byte string of length <=1 and a lattice of length 2 (thorough: all) on every entry point; 20-byte headers with every declared length 0..2100 and 2^k-1, 2^k, 2^k+1 up to 2^24-1 x 4 commands x R bit, header only and with the body supplied; (ii) AVP shapes code {one per type, vendor variants, groups, undefined} x flags {0,0x20,0x40,0x80,0xC0,0xFF} x declared length 0..44 x bytes available 0..44 (quick: the neighbourhood of declared, multiples of 8) as DecodeAVP input, as message body and as group payload; (iii) every datatype decoder on payloads of 0..40 bytes x 4 fill patterns (address families 1, 257, 65535, 32897), the rendered text bounded by 32 x supplied + 256 bytes; (iv) every single structured corruption (each length field to 16 boundary values, every flag bit, code to undefined/0/2^31-1, truncation at every offset with and without a consistent header) of well-formed seeds covering every type and nesting, and every pair of corruptions on small seeds (thorough: triples on one seed); (v) a grouped AVP nested 1..1000 deep in-process with every inspection (String/PrettyDump are cubic in depth), 3000 deep with re-serialisation measured, and 6*10^4 (thorough) and 2*10^6 deep in child processes under an 8 GiB address-space cap. (vi) text values spelled in formatting directives: every sequence of <=4 tokens over 16 tokens of fmt syntax (%, verbs, [n], *, widths up to 999999, flags) in a UTF8String and of <=3 in a DiameterIdentity, OctetString, DiameterURI and Session-Id, decoded and rendered: String / PrettyDump show the text as received and stay within 32 x supplied + 1024 bytes. Message input of the configurations built on dict.Default is also decoded with the dictionary argument omitted (nil) and inspected the same way. On everything that decodes: String, PrettyDump, Serialize, WriteTo, Unmarshal into CER/CEA/DWR/DWA, a generic struct, a struct of fixed-size byte arrays and a struct that maps every Grouped AVP of the configuration's alphabet onto a nested struct / pointer / slice and every plain leaf onto a slice of a Go holder type (seeds repeat one code three times, once under a foreign vendor id), once into a fresh value and once into a value reused across all inputs of the configuration (slices non-nil, capacities as the earlier inputs left them), FindAVP/FindAVPs/FindAVPsWithPath by code and name. Distinct by (configuration, entry point, bytes)."
+	return "(0) every stream of <=3 pieces over {messages with 8 / 600 / 2036 / 5000-byte bodies, a bare header claiming 2056 bytes, headers claiming 620 / 3000 bytes followed by 10 / 1500} read message by message with the exported diam.MessageBufferLength set to one of {1024, 4096, 512} before each read; (i) every byte string of length <=1 and a lattice of length 2 (thorough: all) on every entry point; 20-byte headers with every declared length 0..2100 and 2^k-1, 2^k, 2^k+1 up to 2^24-1 x 4 commands x R bit, header only and with the body supplied; (ii) AVP shapes code {one per type, vendor variants, groups, undefined} x flags {0,0x20,0x40,0x80,0xC0,0xFF} x declared length 0..44 x bytes available 0..44 (quick: the neighbourhood of declared, multiples of 8) as DecodeAVP input, as message body and as group payload; (iii) every datatype decoder on payloads of 0..40 bytes x 4 fill patterns (address families 1, 257, 65535, 32897), the rendered text bounded by 32 x supplied + 256 bytes; (iv) every single structured corruption (each length field to 16 boundary values, every flag bit, code to undefined/0/2^31-1, truncation at every offset with and without a consistent header) of well-formed seeds covering every type and nesting, and every pair of corruptions on small seeds (thorough: triples on one seed); (v) a grouped AVP nested 1..1000 deep in-process with every inspection (String/PrettyDump are cubic in depth), 3000 deep with re-serialisation measured, and 6*10^4 (thorough) and 2*10^6 deep in child processes under an 8 GiB address-space cap. (vii) 1..7 stray octets (0x00 / 0xff) behind the last complete AVP of messages with 8..70000-byte values, i.e. bodies below, around and above the 1 KiB pooled read buffer; (vi) text values spelled in formatting directives: every sequence of <=4 tokens over 16 tokens of fmt syntax (%, verbs, [n], *, widths up to 999999, flags) in a UTF8String and of <=3 in a DiameterIdentity, OctetString, DiameterURI and Session-Id, decoded and rendered: String / PrettyDump show the text as received and stay within 32 x supplied + 1024 bytes. Message input of the configurations built on dict.Default is also decoded with the dictionary argument omitted (nil) and inspected the same way. On everything that decodes: String, PrettyDump, Serialize, WriteTo, Unmarshal into CER/CEA/DWR/DWA, a generic struct, a struct of fixed-size byte arrays and a struct that maps every Grouped AVP of the configuration's alphabet onto a nested struct / pointer / slice and every plain leaf onto a slice of a Go holder type (seeds repeat one code three times, once under a foreign vendor id), once into a fresh value and once into a value reused across all inputs of the configuration (slices non-nil, capacities as the earlier inputs left them), FindAVP/FindAVPs/FindAVPsWithPath by code and name. Distinct by (configuration, entry point, bytes)."
 }
 
 func nestedMessage(c *Config, depth int) []byte {
